@@ -27,6 +27,9 @@ def check(res):
         progs.append(p)
         for k, v in fm.items():
             forms[k] = forms.get(k, 0) + v
+    ndeep0 = len(progs)
+    progs += progen.deep_programs()          # margins beyond 80 columns: what the layout helpers write there
+    n = len(progs)
     p = run([exe, "prog"], input="\n".join(progs) + "\n", env=SAN_ENV, timeout=7200)
     keys = set()
     got = {}
@@ -63,6 +66,10 @@ def check(res):
         bytes_total += len(a)
         if "logic_error" in st:
             refused += 1
+        stray = sorted(set(x for x in a if (x < 32 and x != 10) or x == 127))
+        if stray and i > ndeep0:              # the deep programs spell every name and literal with letters and digits
+            viol("stray-bytes", "the printed unit holds byte(s) %s that belong to no spelling or token of the program (first at offset %d)" %
+                 (["0x%02x" % x for x in stray[:4]], next(j for j, x in enumerate(a) if x in stray)), i, {"printed_hex_around": a[max(0, next(j for j, x in enumerate(a) if x in stray) - 60):][:140].hex()})
         if a != a2 or a != a3:
             viol("reprint", "printing the same unit again with a fresh printer gives different text", i,
                  {"first": a[:1500].decode("latin1"), "second": (a2 if a != a2 else a3)[:1500].decode("latin1")})
